@@ -260,9 +260,9 @@ Section FailFS.
 
   Lemma wstep_strip (w1 w2 : world) c :
     same_bo w1 w2 ->
-    same_res (wstep base_step T ok_func comp_prog w1 c) (wstep base_step (strip_table T) ok_func comp_prog w2 c).
+    same_res (wrap_wstep base_step T ok_func comp_prog w1 c) (wrap_wstep base_step (strip_table T) ok_func comp_prog w2 c).
   Proof.
-    intros Hs. unfold Wrapper.wstep. apply call_obj_strip; [|exact Hs].
+    intros Hs. unfold Wrapper.wrap_wstep. apply call_obj_strip; [|exact Hs].
     intros cp w1' w2' a bind Hs'. unfold comp_cb.
     pose proof (run_prog_strip (comp_prog cp a) w1' w2' (c_obj c) bind [] [] Hs') as [Ha [Hb Ho]].
     destruct Hs' as [_ Ho'].
@@ -283,8 +283,8 @@ Section FailFS.
     induction cs as [|c cs IH]; intros w1 w2 Hs; cbn [Wrapper.wrun].
     - split; [reflexivity|exact Hs].
     - pose proof (wstep_strip w1 w2 c Hs) as [Ha Hw].
-      destruct (wstep base_step T ok_func comp_prog w1 c) as [x1 w1'].
-      destruct (wstep base_step (strip_table T) ok_func comp_prog w2 c) as [x2 w2'].
+      destruct (wrap_wstep base_step T ok_func comp_prog w1 c) as [x1 w1'].
+      destruct (wrap_wstep base_step (strip_table T) ok_func comp_prog w2 c) as [x2 w2'].
       cbn [fst snd] in Ha, Hw. destruct (IH w1' w2' Hw) as [Hr Hf].
       destruct (wrun base_step T ok_func comp_prog w1' cs) as [xs1 w1''].
       destruct (wrun base_step (strip_table T) ok_func comp_prog w2' cs) as [xs2 w2''].
@@ -315,10 +315,10 @@ Section Inject.
     olookup id (w_objs w) = Some o -> wo_wrapped o = true ->
     target m a = Some (m', a') -> kind_of T m' = KConsult fn flag k ->
     ff (w_hist w) fn (mk_flag flag a') = Some e ->
-    wstep base_step T ff comp_prog w (mkCall id m a bind) = (mkRes (ans_err e) [(fn, true)], push_hist fn w).
+    wrap_wstep base_step T ff comp_prog w (mkCall id m a bind) = (mkRes (ans_err e) [(fn, true)], push_hist fn w).
   Proof.
     intros w id o m a bind m' a' fn flag k e Ho Hw Ht Hk Hf.
-    unfold Wrapper.wstep, Wrapper.call_obj. cbn [c_obj c_meth c_args c_bind]. rewrite Ho, Hw.
+    unfold Wrapper.wrap_wstep, Wrapper.call_obj. cbn [c_obj c_meth c_args c_bind]. rewrite Ho, Hw.
     unfold Wrapper.run1. unfold target in Ht.
     destruct (kind_of T m) eqn:Ek; try (inversion Ht; subst m' a'; rewrite Ek in Hk; discriminate).
     - destruct a as [|[n| |] [|]]; try discriminate. inversion Ht; subst m' a'.
@@ -334,11 +334,11 @@ Section Inject.
     target m a = Some (m', a') -> kind_of T m' = KConsult fn flag k ->
     (k = KFwd \/ k = KFwdWrap \/ k = KPure) ->
     ff (w_hist w) fn (mk_flag flag a') = None ->
-    wstep base_step T ff comp_prog w (mkCall id m a bind) =
+    wrap_wstep base_step T ff comp_prog w (mkCall id m a bind) =
     add_cons (fn, false) (forward base_step (match k with KFwdWrap => true | _ => false end) (push_hist fn w) o m' a' bind).
   Proof.
     intros w id o m a bind m' a' fn flag k Ho Hw Ht Hk Hkk Hf.
-    unfold Wrapper.wstep, Wrapper.call_obj. cbn [c_obj c_meth c_args c_bind]. rewrite Ho, Hw.
+    unfold Wrapper.wrap_wstep, Wrapper.call_obj. cbn [c_obj c_meth c_args c_bind]. rewrite Ho, Hw.
     unfold Wrapper.run1. unfold target in Ht.
     destruct (kind_of T m) eqn:Ek; try (inversion Ht; subst m' a'; rewrite Ek in Hk; discriminate).
     - destruct a as [|[n| |] [|]]; try discriminate. inversion Ht; subst m' a'.
@@ -469,9 +469,9 @@ Section ReadOnly.
   Qed.
 
   Lemma wstep_ro (w : world) c :
-    all_wrapped (w_objs w) -> keeps w (wstep base_step T ff comp_prog w c).
+    all_wrapped (w_objs w) -> keeps w (wrap_wstep base_step T ff comp_prog w c).
   Proof.
-    intros Hw. unfold Wrapper.wstep. apply call_obj_ro; [|exact Hw].
+    intros Hw. unfold Wrapper.wrap_wstep. apply call_obj_ro; [|exact Hw].
     intros cp w' a bind Hw'. unfold comp_cb.
     destruct (run_prog_ro (comp_prog cp a) w' (c_obj c) bind [] Hw') as [Ht Ha].
     split; cbn [fst snd w_base w_objs]; [exact Ht|].
@@ -487,7 +487,7 @@ Section ReadOnly.
     induction cs as [|c cs IH]; intros w Hw; cbn [Wrapper.wrun].
     - split; [reflexivity|exact Hw].
     - pose proof (wstep_ro w c Hw) as [Ht Ha].
-      destruct (wstep base_step T ff comp_prog w c) as [x w1]. cbn [fst snd] in Ht, Ha.
+      destruct (wrap_wstep base_step T ff comp_prog w c) as [x w1]. cbn [fst snd] in Ht, Ha.
       destruct (IH w1 Ha) as [Ht' Ha'].
       destruct (wrun base_step T ff comp_prog w1 cs) as [xs w2]. cbn [fst snd] in *.
       split; [rewrite Ht'; exact Ht|exact Ha'].
